@@ -376,6 +376,30 @@ impl GatewayBinder {
         Proof { signers: v, threshold: ws.threshold, nonce: ws.nonce }
     }
 
+    /// full valid proof of the given set over an arbitrary data hash (used by other bindings)
+    pub fn valid_proof(&mut self, set: &str, data_hash: [u8; 32]) -> Proof {
+        let ws = self.signers(set);
+        let sh = self.set_hash[set];
+        let ranks: Vec<usize> = jarr(&self.inst["Sets"][set], "keys").iter().map(|x| x.as_u64().unwrap() as usize).collect();
+        let env = self.cx.env.clone();
+        let mut v = SVec::new(&env);
+        for (i, signer) in ws.signers.iter().enumerate() {
+            let sig = self.ring.sorted[ranks[i] - 1].sign(&Self::digest(&DOMAIN, &sh, &data_hash)).to_bytes();
+            v.push_back(ProofSigner { signer, signature: ProofSignature::Signed(BytesN::from_array(&env, &sig)) });
+        }
+        Proof { signers: v, threshold: ws.threshold, nonce: ws.nonce }
+    }
+
+    /// approve concrete messages with a valid proof from the named (latest) set
+    pub fn approve_raw(&mut self, set: &str, msgs: SVec<Message>) -> Result<Val, String> {
+        let env = self.cx.env.clone();
+        let dh = keccak(&bytes_to_vec(&(CommandType::ApproveMessages, msgs.clone()).to_xdr(&env)));
+        let proof = self.valid_proof(set, dh);
+        let gw = self.gw.clone().unwrap();
+        let args: SVec<Val> = svec![&env, msgs.into_val(&env), proof.into_val(&env)];
+        self.cx.call_auth(&[], &gw, "approve_messages", args)
+    }
+
     pub fn construct(&mut self, sets: &[String]) -> bool {
         let env = self.cx.env.clone();
         let owner = self.cx.addr(&self.owner.clone());
